@@ -387,22 +387,25 @@ impl<'a, Msg> Iterator for NetworkIter<'a, Msg> {
                         msg: &env.msg,
                     };
                     if *count > 1 {
-                        *active = Some((env, *count));
+                        *active = Some((env, *count - 1));
                     }
                     env
                 })
             }
             NetworkIter::Ordered(active, it) => {
                 if let Some((src, dst, messages, index)) = active {
-                    let msg = messages.get(*index).unwrap(); // messages.len() > 1
-                    return Some(Envelope {
-                        src: *src,
-                        dst: *dst,
-                        msg,
-                    });
+                    *index += 1;
+                    if let Some(msg) = messages.get(*index) {
+                        return Some(Envelope {
+                            src: *src,
+                            dst: *dst,
+                            msg,
+                        });
+                    }
+                    *active = None;
                 }
                 it.next().map(|(&(src, dst), messages)| {
-                    let msg = messages.front().unwrap(); // messages.len() > 1
+                    let msg = messages.front().unwrap(); // flows are never empty
                     *active = Some((src, dst, messages, 0));
                     Envelope { src, dst, msg }
                 })
